@@ -265,6 +265,72 @@ def serve (N : Net Addr Prefix) (cfg : Cfg Prefix) (c : Conn) (wire : List (Byte
     fwd := (prepareRequest N cfg c (determineTrustedProxy N cfg c (fromWire wire)).1
               (applyOmit cfg (fromWire wire))).map fwdOf }
 
+/-! ### what consumes the attributed address
+`client_ip` / `remote_ip` matchers (ip_matchers.go), the `{http.vars.client_ip}` placeholder
+(replacer.go), the access log's `request.client_ip` field (marshalers.go) and the PROXY-protocol
+address reverse_proxy derives for the upstream (reverseproxy.go `prepareRequest`). -/
+
+/-- one configured range of a matcher after `provisionCidrsZonesFromRanges`: prefix and zone filter -/
+structure MRange (Prefix : Type) where
+  pfx : Prefix
+  zone : Bytes          -- "" = no zone filter
+
+/-- `ipStr, _, err := net.SplitHostPort(address); if err != nil { ipStr = address }` -/
+def hostOrAll (address : Bytes) : Bytes :=
+  match splitHostPort address with
+  | some hp => hp.1
+  | none => address
+
+/-- `if strings.Contains(ipStr, "%") { split := strings.Split(ipStr, "%"); ipStr = split[0]; zoneID = split[1] }` -/
+def ipAndZone (ipStr : Bytes) : Bytes × Bytes :=
+  match splitOn percent ipStr with
+  | a :: b :: _ => (a, b)
+  | a :: _ => (a, [])          -- no '%': `Split` returns the string itself
+  | [] => (ipStr, [])          -- (`Split` never returns an empty slice)
+
+/-- `parseIPZoneFromString`; `none` = `netip.ParseAddr` failed -/
+def parseIPZone (N : Net Addr Prefix) (address : Bytes) : Option (Addr × Bytes) :=
+  match N.parseAddr (ipAndZone (hostOrAll address)).1 with
+  | some a => some (a, (ipAndZone (hostOrAll address)).2)
+  | none => none
+
+/-- `matchIPByCidrZones` (its first result; the second only selects a debug log line) -/
+def matchCidrZones (N : Net Addr Prefix) (a : Addr) (zoneID : Bytes) : List (MRange Prefix) → Bool
+  | [] => false
+  | r :: rest =>
+    if N.contains r.pfx a && (decide (r.zone = []) || decide (zoneID = r.zone)) then true
+    else matchCidrZones N a zoneID rest
+
+/-- `MatchClientIP.MatchWithError` / `MatchRemoteIP.MatchWithError` on their respective address
+    (handshake complete) -/
+def matchAddress (N : Net Addr Prefix) (ranges : List (MRange Prefix)) (address : Bytes) : Bool :=
+  match parseIPZone N address with
+  | some az => matchCidrZones N az.1 az.2 ranges
+  | none => false
+
+/-- everything downstream of the `client_ip` var -/
+structure Consumers where
+  placeholder : Bytes            -- `{http.vars.client_ip}`
+  logField : Bytes               -- access log `request.client_ip`
+  clientMatch : Bool             -- `client_ip` matcher
+  remoteMatch : Bool             -- `remote_ip` matcher (reads `r.RemoteAddr`, not the var)
+  proxyProto : Option Bytes      -- PROXY-protocol source address (port 0); none = invalid
+deriving DecidableEq, Repr
+
+/-- the consumers, given the var's value.  (`netip.ParseAddrPort` never accepts what `Addr.String`
+    prints, so `prepareRequest` always takes its `ParseAddr` branch — checked by the stream.) -/
+def consumers (N : Net Addr Prefix) (ranges : List (MRange Prefix)) (c : Conn) (clientIP : Bytes) : Consumers :=
+  { placeholder := clientIP
+    logField := clientIP
+    clientMatch := matchAddress N ranges clientIP
+    remoteMatch := matchAddress N ranges c.remoteAddr
+    proxyProto := (N.parseAddr clientIP).map N.toString }
+
+/-- one request: what the consumers see -/
+def serveConsumers (N : Net Addr Prefix) (cfg : Cfg Prefix) (ranges : List (MRange Prefix)) (c : Conn)
+    (wire : List (Bytes × Bytes)) : Consumers :=
+  consumers N ranges c (serve N cfg c wire).clientIP
+
 /-! ### the proxy retry loop (reverseproxy.go `ServeHTTP` / `proxyLoopIteration`) -/
 
 /-- the request header operations (`headers.request`, Caddyfile `header_up`) the harness configures -/
